@@ -1293,7 +1293,7 @@ def model_post_request(sc, fault):
     elif sc["state"] == "magic":
         toks += ["R1.9.1003.1.0"]
     elif sc["state"] == "otherfile":
-        toks += ["R1001.10.1003.1.1"]
+        toks += ["R1001.10.1003.1.99"]
     g, j, kind = fault
     fates = ["-", "-"]
     crash = "n"
@@ -1439,7 +1439,7 @@ MODEL_CONC_INIT = {            # state -> (initial module, source version, sourc
     "none": ("none", 1, 1000, 1010),
     "stale": ("1.10.1001.0", 2, 1005, 1010),
     "magic": ("1.9.1003.0", 1, 1000, 1010),
-    "otherfile": ("1001.10.1003.1", 1, 1000, 1010),
+    "otherfile": ("1001.10.1003.99", 1, 1000, 1010),
     "fresh": ("1.10.1003.0", 1, 1000, 1010),
     "future-src": ("none", 1, 5000, 1010),
 }
